@@ -15,5 +15,5 @@ CONSTANTS
   Undecodable = {1}
 INVARIANTS
   OrderOk PostStopOnlyGraceful NoOverlap NoStartAfterKill NoHandlerAfterStop KillWins SupBeforeMsg
-  OneTerminal TerminalIffRan StartedOrder DeadMeansClean FailedStartSilent NoChildOfDead
+  OneTerminal TerminalIffRan StartedOrder DeadMeansClean FailedStartSilent DeadLeavesNothing NoChildOfDead
 CHECK_DEADLOCK FALSE
